@@ -732,8 +732,8 @@ def run(ctx):
         for ch in (a_s, b_s):
             try:
                 names_.append(ht.head_content(ht.HTML("<style>.a::before{content:'%s'}</style>" % ch)).name)
-            except UnicodeError:
-                names_.append(None)
+            except Exception:
+                names_.append(None)    # (refusing such a payload - with whatever error - is fine)
         ctx.count("monitor.headcontent_pairs")
         if names_[0] is not None and names_[0] == names_[1]:
             ctx.violation("head-content-name-collision", "head contents that differ in one character (%r / %r) share the name %s" % (a_s, b_s, names_[0]), {"chars": [ascii(a_s), ascii(b_s)]})
